@@ -25,6 +25,9 @@ const ModulePath = "github.com/high-moctane/mocrelay"
 
 // Program is the resolved form of the repository under analysis.
 type Program struct {
+	// Desugared: range loops over slices.All/Values, maps.All/Keys/Values analysed as plain range loops
+	Desugared int
+
 	Dir  string
 	Fset *token.FileSet
 
@@ -71,6 +74,24 @@ func Load(dir string) (*Program, error) {
 	if err != nil {
 		return nil, fmt.Errorf("packages.Load: %w", err)
 	}
+	desugared := 0
+	if !hasErrors(pkgs) {
+		overlay, n, derr := desugarStdIterators(pkgs)
+		if derr != nil {
+			return nil, derr
+		}
+		if n > 0 {
+			// load again with the standard iterator adapters spelled as plain range loops (desugar.go)
+			fset = token.NewFileSet()
+			cfg.Fset = fset
+			cfg.Overlay = overlay
+			pkgs, err = packages.Load(cfg, "./...")
+			if err != nil {
+				return nil, fmt.Errorf("packages.Load (iterator overlay): %w", err)
+			}
+			desugared = n
+		}
+	}
 	var errs []string
 	packages.Visit(pkgs, nil, func(p *packages.Package) {
 		for _, e := range p.Errors {
@@ -84,7 +105,7 @@ func Load(dir string) (*Program, error) {
 		}
 		return nil, fmt.Errorf("type/load errors:\n  %s", strings.Join(errs, "\n  "))
 	}
-	p := &Program{Dir: dir, Fset: fset, ByPath: map[string]*packages.Package{}, SSAPkgs: map[string]*ssa.Package{}, fileOf: map[*token.File]*ast.File{}}
+	p := &Program{Desugared: desugared, Dir: dir, Fset: fset, ByPath: map[string]*packages.Package{}, SSAPkgs: map[string]*ssa.Package{}, fileOf: map[*token.File]*ast.File{}}
 	for _, pk := range pkgs {
 		if pk.PkgPath == ModulePath || strings.HasPrefix(pk.PkgPath, ModulePath+"/") {
 			p.Initial = append(p.Initial, pk)
@@ -139,6 +160,16 @@ func Load(dir string) (*Program, error) {
 		return a.String() < b.String()
 	})
 	return p, nil
+}
+
+func hasErrors(pkgs []*packages.Package) bool {
+	bad := false
+	packages.Visit(pkgs, nil, func(p *packages.Package) {
+		if len(p.Errors) > 0 {
+			bad = true
+		}
+	})
+	return bad
 }
 
 // InModule reports whether fn's source belongs to the module under analysis.
